@@ -98,6 +98,7 @@ class BlockWriteHandler(AbstractWriteHandler):
 
         previous_vertex = None
         is_first_vertex = True
+        written_in_this_block: dict[tuple[int, int], int] = {}
         while self._next_vertex is not None:
             # Write
             self.last_handler_in_block = WriteHandlerManager.get_for(
@@ -121,7 +122,25 @@ class BlockWriteHandler(AbstractWriteHandler):
                     raise NestedBlockDisallowedError("A block was not expected to contain any sub-blocks.")
 
             previous_vertex = self._next_vertex
-            self._next_vertex = self.last_handler_in_block.write_content()
+            # Loops in the graph are only left by printing a label the first time it's reached and a jump to it
+            # after that. If a vertex is reached again, while it is still being written or by this block, and
+            # no label was printed since, then writing would never end.
+            in_progress = self.decompiler.vertices_in_progress
+            progress_key = (id(previous_vertex.graph), previous_vertex.index)
+            progress = len(self.decompiler.labels_already_printed)
+            before = in_progress.get(progress_key)
+            assert (
+                before != progress and written_in_this_block.get(progress_key) != progress
+            ), "The graph has a loop that can not be written."
+            written_in_this_block[progress_key] = progress
+            in_progress[progress_key] = progress
+            try:
+                self._next_vertex = self.last_handler_in_block.write_content()
+            finally:
+                if before is None:
+                    del in_progress[progress_key]
+                else:
+                    in_progress[progress_key] = before
             assert self._next_vertex is None or isinstance(self._next_vertex, Vertex)
 
         # Perform basic end-of-branch check (to see if we need an end, return or hold).
